@@ -37,6 +37,16 @@ def spd_sym(m, n, name, seed):
     return M, Mt, Lt
 
 
+
+def _raise_infeasible(H, name, key):
+    """a path on which the real code raises (Cholesky of a non-positive-definite matrix): with SPD P, Q, R it must be infeasible"""
+    def on_raise(ctx, e):
+        H.absorb(ctx)
+        H.prove('%s/raising-path%d-infeasible(%s)' % (name, H.paths, type(e).__name__), H.hyps_of(ctx), z3.BoolVal(False), key=key,
+                timeout=(30 if H.quick else 120))
+    return on_raise
+
+
 def kalman(A, B, C, D, c1, c2, x, u, y, P, Q, R, n, p):
     xm = [a + b + c for a, b, c in zip(T.mv(A, x), T.mv(B, u), c1)]
     Pm = T.madd(T.mm(T.mm(A, P), T.tr(A)), Q)
@@ -134,7 +144,7 @@ def case_linear(H, filt, n, mdim, p, kpar=None):
         return e > 1e-5, '%s differs from the Kalman posterior by %.3g (relative) when the innovation covariance has condition number %.1e' % (
             filt, e, torch.linalg.cond(S).item())
 
-    for ctx, (xo, Po, sym, Pt, Qt, Rt, m, xot, Pot) in run_paths(H, name, prog, max_paths=4):
+    for ctx, (xo, Po, sym, Pt, Qt, Rt, m, xot, Pot) in run_paths(H, name, prog, max_paths=4, raised=_raise_infeasible(H, name, 'C13/%s/kalman' % filt)):
         selftest(H, ctx, m, [(xo, xot), (Po, Pot)], name)
         # the pseudo-inverse must be taken with the kernel's default (no truncation) tolerances: a truncating tolerance makes
         # the gain differ from the Kalman gain for ill-conditioned (but legal) innovation covariances
@@ -223,7 +233,7 @@ def case_ukf_history(H):
         e = max((x2 - b).abs().max().item(), (P2 - Pb).abs().max().item())
         return e > 1e-7, 'second UKF step (k changed from 2 to 0.5 on the same filter object) differs from the Kalman posterior by %.3g' % e
 
-    for ctx, (x2, P2, sym, Pt, Qt, Rt) in run_paths(H, name, prog, max_paths=4):
+    for ctx, (x2, P2, sym, Pt, Qt, Rt) in run_paths(H, name, prog, max_paths=4, raised=_raise_infeasible(H, name, 'C13/UKF/kalman')):
         hyp = H.hyps_of(ctx)
         A, B = T.mat(sym['A'], 1, 1), T.mat(sym['B'], 1, 1)
         C, D = T.mat(sym['C'], 1, 1), T.mat(sym['D'], 1, 1)
